@@ -710,6 +710,12 @@ func (p precompileFunToken) bankMsgSend(
 	toBech32 := eth.EthAddrToNibiruAddr(toEthAddr)
 
 	// do the bank send
+	if err := sdk.ValidateDenom(denom); err != nil {
+		return nil, ErrInvalidArgs(err)
+	}
+	if amount == nil || amount.Sign() < 0 {
+		return nil, ErrInvalidArgs(fmt.Errorf("amount must not be negative"))
+	}
 	coin := sdk.NewCoins(sdk.NewCoin(denom, math.NewIntFromBigInt(amount)))
 	bankMsg := &bank.MsgSend{
 		FromAddress: fromBech32.String(),
